@@ -19,6 +19,10 @@ def run(m, tier):
             f.rule = r.rule
     results = [rr.rule_queue(m, "C12.R1"), r_items, r_nodes, rr.rule_linecount(m, "C12.R2"), rr.rule_span(m, "C12.R3"),
                rr.rule_quote_state(m, "C12.R4"), rr.rule_semicolon(m, "C12.R5"), rr.rule_continuation(m, "C12.R6"), regex_rules.label_name_rules(m, "C12.R7"), rr.rule_inline_table(m, "C12.R8")]
+    from rules import C07
+    from sa.report import retag
+    results.append(retag(C07.r5_physical_lines(m), "C12.R9", "physical lines are newline-terminated lines only: the string reader iterates a StringIO "
+                         "of the source, so spans and literals are not cut at form feed / U+2028 etc. (shared with C07.R5)"))
     expl = ("Decides structural clauses of C12: the item queue discipline (who pushes/pops which end, ';' parts reversed before being "
             "pushed to the front, give-back forwarded to the active include reader, no access to another reader's queue); every "
             "look-ahead is undone (typestate of items and nodes on all paths of every reader-level matcher); the physical line counter "
